@@ -234,6 +234,7 @@ def target_to_drawing():
         sess.assumptions.append("schemdraw itself (Drawing, elements) is not verified: stand-ins record what the routine hands to it")
         sess.assumptions.append("generate_element_identifiers gives an identifier to every element of the tree (C16 contracts)")
         sess.assumptions.append("termination of the recursion (structural on a finite tree) is not proved")
+        sess.assumptions.append("Connection.__iter__ yields the direct children in order (one-line method `iter(self._elements)`), as the stand-in connections do")
         consts = _eval_outer_constants(outer, ["lookup", "unit_width"], ns)
         nested = H.nested_defs(outer)
         for need in ("draw_element", "get_width", "get_height", "draw_parallel", "draw_series"):
@@ -565,6 +566,8 @@ def target_circuitikz():
         sess.assumptions.append(H.TREE_ASSUMPTION)
         sess.assumptions.append("generate_element_identifiers gives an identifier to every element of the tree (C16 contracts)")
         sess.assumptions.append("iterating over a dictionary visits every key once (CPython); termination of the recursion is not proved")
+        sess.assumptions.append("Connection.__iter__ yields the direct children in order and Connection.contains(x, top_level=True) is identity membership among them "
+                                "(one-line methods over the list of children: `iter(self._elements)`, `any(item is x for item in self._elements)`), as the stand-in connections do")
         nested = H.nested_defs(outer)
         for need in ("short_wire", "phase_1_element", "phase_1_series", "phase_1_parallel", "replace_variables", "phase_2"):
             if need not in nested:
